@@ -17,6 +17,11 @@ def run(rep, W, ctx):
     S.c10(rep, W)
     S.s_wmc(rep, W, only=[WD.tm("set_snapshot")])
     S.c03_nostate(rep, W)      # the id and the bytes of one upload cannot be mixed with another request's: no shared buffers / statics / thread-locals
+    # "a usable base: following child versions from it reaches the latest without being told gone" rests on the chain being
+    # unbranched (the acceptance rule) and on GetChildVersion's answers
+    S.s_cas(rep, W)
+    S.s_class(rep, W)          # a read (GetSnapshot) leaves the stored bytes where they are
+    S.c08(rep, W)
     from rules import wiring as WR
     WR.c13_written(rep, W)     # the snapshot's version id / time / bytes are written by set_snapshot only, on both back ends
     H.c14_tables(rep, W, modules=("get_snapshot",))      # id header and bytes of the same record reach the client
